@@ -406,7 +406,7 @@ def outObs (a : Addr) : List Out → List Obs
   | .up s d x :: r => .up a s d x :: outObs a r
   | .sap s m :: r => .sap a s m :: outObs a r
   | .raised w :: r => .err a w :: outObs a r
-  | .send .other _ :: r => .err a "invalid destination address type" :: outObs a r
+  | .send .other _ :: r => .err a "RuntimeError" :: outObs a r   -- the multiplexer refuses the address type
   | _ :: r => outObs a r
 
 /-- the nodes of one network receive a datagram, in attachment order -/
